@@ -921,7 +921,7 @@ func c06Constraint(w *World, r *Report, ra *repoAnchors) {
 			if c == nil || c.Common().StaticCallee() != nil || c.Common().IsInvoke() {
 				return false
 			}
-			return pathEndsWith(c.Common().Value, "canAdd") && len(c.Common().Args) == 2 && c.Common().Args[1] == ssa.Value(add.Params[2])
+			return isBoolFuncField(c.Common().Value) && len(c.Common().Args) == 2 && c.Common().Args[1] == ssa.Value(add.Params[2])
 		}) {
 			ok = false
 		}
